@@ -50,6 +50,15 @@ exit 0
 FILL_LINE = "Z" + "z" * 998 + "\n"
 FILL_FLUSHED = 64
 FILL_LAZY = 4
+FILL_DRIP = 6  # a "drip" alias writes this many filler lines to stdout, one per DRIP_SLEEP seconds, each flushed
+DRIP_SLEEP = 0.15
+
+# a consumer that leaves at once, without reading its stdin (head -n 0 style)
+_SH_EARLY = """#!/bin/sh
+echo O{i}
+echo E{i} >&2
+exit 0
+"""
 SLOW_SECONDS = 1.0
 
 _bindir = None
@@ -64,7 +73,8 @@ def stage_word(kind, i, st=None):
     w = {"ext": "st", "thr": "ta", "unthr": "ua"}[kind] + str(i)
     if st:
         w += {"lazy": "l", "ret": "r"}.get(st.get("style"), "")
-        w += {"out": "b", "err": "B"}.get(_bulk(st), "")
+        w += {"out": "b", "err": "B", "drip": "d"}.get(_bulk(st), "")
+        w += "e" if st.get("early") else ""
         w += "s" if st.get("slow") else ""
     return w
 
@@ -87,7 +97,8 @@ def stage_stdout(i, stdin_lines, args=(), bulk=False):
     if stdin_lines:
         s += f"I{i}_" + "".join(ln + "_" for ln in sorted(stdin_lines)) + f"{i}I\n"
     if bulk:
-        s += f"Z{FILL_FLUSHED + FILL_LAZY}\n"
+        n = bulk if isinstance(bulk, int) and not isinstance(bulk, bool) else FILL_FLUSHED + FILL_LAZY
+        s += f"Z{n}\n"
     return s + f"O{i}\n"
 
 
@@ -173,6 +184,10 @@ def make_bindir():
             with open(p, "w") as f:
                 f.write(_SH.format(i=i, sleep=""))
             os.chmod(p, 0o755)
+            p = os.path.join(d, f"st{i}e")
+            with open(p, "w") as f:
+                f.write(_SH_EARLY.format(i=i))
+            os.chmod(p, 0o755)
             p = os.path.join(d, f"st{i}s")
             with open(p, "w") as f:
                 f.write(_SH.format(i=i, sleep=f"/bin/sleep {SLOW_SECONDS}\n"))
@@ -181,12 +196,12 @@ def make_bindir():
     return _bindir
 
 
-def _mk_alias(i, style="flush", bulk=False, slow=0.0):
+def _mk_alias(i, style="flush", bulk=False, slow=0.0, early=False):
     def _stage(args, stdin=None, stdout=None, stderr=None):
         if slow:
             time.sleep(slow)
         data = ""
-        if stdin is not None:
+        if stdin is not None and not early:
             data = stdin.read()
         lines = [ln for ln in data.split("\n") if ln != ""]
         nfill = sum(1 for ln in lines if ln.startswith("Zz"))
@@ -197,6 +212,19 @@ def _mk_alias(i, style="flush", bulk=False, slow=0.0):
         if lines:
             head += f"I{i}_" + "".join(ln + "_" for ln in lines) + f"{i}I\n"
         ehead = ""
+        if bulk == "drip":
+            # stderr first, then stdout in several flushed chunks over FILL_DRIP * DRIP_SLEEP seconds:
+            # the stage is still producing stdout long after an early-exit consumer has left
+            stderr.write(f"E{i}\n")
+            stderr.flush()
+            stdout.write(head)
+            for _ in range(FILL_DRIP):
+                stdout.write(FILL_LINE)
+                stdout.flush()
+                time.sleep(DRIP_SLEEP)
+            stdout.write(f"O{i}\n")
+            stdout.flush()
+            return 0
         if bulk == "out":
             stdout.write(head + FILL_LINE * FILL_FLUSHED)
             stdout.flush()  # fits into the empty pipe: returns at once
@@ -362,7 +390,7 @@ def _child(case, resfd):
         for i, st in enumerate(case["stages"], 1):
             w = stage_word(st["kind"], i, st)
             if st["kind"] == "thr" and w not in XSH.aliases:
-                XSH.aliases[w] = _mk_alias(i, st.get("style", "flush"), _bulk(st), SLOW_SECONDS if st.get("slow") else 0.0)
+                XSH.aliases[w] = _mk_alias(i, st.get("style", "flush"), _bulk(st), SLOW_SECONDS if st.get("slow") else 0.0, bool(st.get("early")))
         src = render(case)
         threads0 = threading.active_count()
         exc = None
